@@ -17,7 +17,7 @@ ASSUMPTIONS = ["printed thresholds are NumPy's shortest round-tripping repr, so 
                "generated feature names cannot contain ' <= ' or ' > '"]
 EVAL_COUNTER = "prints"
 REQUIRED = {"quick": {"prints": 1000, "trees_with_splits": 400, "points_compared": 20000, "named_prints": 300,
-                      "short_names_rejected": 100, "unfitted_refused": 50},
+                      "short_names_rejected": 100, "unfitted_refused": 50, "refused_fit_then_print_refused": 80},
             "thorough": {"prints": 20000}}
 SHARD_TIMEOUT = {"quick": 1200, "thorough": 7000}
 
@@ -125,6 +125,26 @@ def run_case(case, ctx, st):
                 ctx.violation("refusal", f"print-accepts-{tag}", observed="returned", expected="raises")
             except Exception:
                 ctx.count("unfitted_refused")
+        if i % 3 == 0:
+            # a model whose only fit was refused (non-finite / one-dimensional / empty data) is still an unfitted model
+            bad_inputs = [("nan", np.where(np.arange(X.size).reshape(X.shape) == 0, np.nan, X)), ("1d", X[:, 0]),
+                          ("empty", X[:0]), ("inf", np.where(np.arange(X.size).reshape(X.shape) == X.size - 1, np.inf, X))]
+            tagb, Xb = bad_inputs[int(rng.integers(0, len(bad_inputs)))]
+            est_b = Kauri(**p)
+            refused = False
+            try:
+                with contextlib.redirect_stdout(io.StringIO()):
+                    est_b.fit(Xb, None if p["kernel"] != "precomputed" else y)
+            except Exception:
+                refused = True
+            if refused:
+                try:
+                    with contextlib.redirect_stdout(io.StringIO()) as buf:
+                        print_kauri_tree(est_b)
+                    ctx.violation("refusal", "print-accepts-model-whose-fit-was-refused", observed={"input": tagb, "printed": buf.getvalue()[:120]}, expected="raises")
+                except Exception:
+                    ctx.count("unfitted_refused")
+                    ctx.count("refused_fit_then_print_refused")
         try:
             est.fit(X, y)
         except Exception as e:
